@@ -11,6 +11,7 @@ import (
 	"flag"
 	"fmt"
 	"math"
+	"math/big"
 	"os"
 	"sort"
 	"strings"
@@ -48,11 +49,16 @@ func bs(s string) string {
 	if s == "" {
 		return "[]"
 	}
-	p := make([]string, len(s))
-	for i := 0; i < len(s); i++ {
-		p[i] = fmt.Sprint(s[i])
+	if len(s) > 80 || strings.IndexByte(s, 0) >= 0 {
+		panic("string outside the compact encoding")
 	}
-	return "[" + strings.Join(p, ";") + "]"
+	// B n: bytes of n, least significant first
+	n := new(big.Int)
+	for i := len(s) - 1; i >= 0; i-- {
+		n.Lsh(n, 8)
+		n.Or(n, big.NewInt(int64(s[i])))
+	}
+	return "(B " + n.String() + ")"
 }
 func cb(b bool) string {
 	if b {
@@ -143,6 +149,7 @@ func ptiersCoq(ts []*proto.TierInfo) string {
 // ---------------------------------------------------------------- universe
 
 type universe struct {
+	fewOrders bool
 	keys  []model.PolicyKey
 	tiers []string
 	eps   []model.EndpointKey
@@ -205,7 +212,14 @@ type op struct {
 	typesEq []string // Types after EqualFold classification
 }
 
-func genOrder(r *rng) *float64 {
+func genOrder(r *rng, few bool) *float64 {
+	if few {
+		if r.intn(2) == 0 {
+			return nil
+		}
+		f := orders[1+r.intn(2)]
+		return &f
+	}
 	if r.intn(4) == 0 {
 		return nil
 	}
@@ -223,7 +237,7 @@ func genPolicy(r *rng, u *universe) (*model.Policy, []string) {
 	default:
 		p.Tier = u.tiers[r.intn(len(u.tiers))]
 	}
-	p.Order = genOrder(r)
+	p.Order = genOrder(r, u.fewOrders)
 	switch r.intn(8) {
 	case 0:
 		p.DoNotTrack = true
@@ -254,7 +268,7 @@ func genPolicy(r *rng, u *universe) (*model.Policy, []string) {
 }
 
 func genTier(r *rng) *model.Tier {
-	t := &model.Tier{Order: genOrder(r)}
+	t := &model.Tier{Order: genOrder(r, false)}
 	switch r.intn(3) {
 	case 0:
 		t.DefaultAction = "Deny"
@@ -321,6 +335,19 @@ func fptr(p *float64) string {
 		return "unset"
 	}
 	return fmt.Sprint(*p)
+}
+
+func safeApply(pr *calc.PolicyResolver, u *universe, o op) (msg string) {
+	defer func() {
+		if r := recover(); r != nil {
+			msg = fmt.Sprint(r)
+			if e, ok := r.(*log.Entry); ok {
+				msg = e.Message
+			}
+		}
+	}()
+	apply(pr, u, o)
+	return ""
 }
 
 func apply(pr *calc.PolicyResolver, u *universe, o op) {
@@ -562,6 +589,8 @@ func main() {
 		case sel < 2:
 			stream = "stream:prefix-names"
 			u.keys = prefixKeys
+			u.fewOrders = true
+			u.tiers = tierNames[:2]
 		default:
 			nk := 3 + r.intn(4)
 			off := r.intn(len(plainKeys))
@@ -588,7 +617,18 @@ func main() {
 				g.push(op{kind: opEp, e: e})
 			}
 		}
-		nops := 8 + r.intn(30)
+		for p := range u.keys {
+			if r.intn(3) != 0 {
+				pol, cls := genPolicy(r, u)
+				g.push(op{kind: opPol, p: p, pol: pol, typesEq: cls})
+				for e := range u.eps {
+					if r.intn(2) == 0 {
+						g.push(op{kind: opStart, p: p, e: e})
+					}
+				}
+			}
+		}
+		nops := len(g.ops) + 8 + r.intn(25)
 		dir := sel >= 2 && sel < 6
 		if dir {
 			stream += "+directed"
@@ -613,10 +653,18 @@ func main() {
 		var opsCoq, outsCoq, splitsCoq, trace []string
 		flushes, nonEmptyLists, multiPolTier, multiTier, prefixPairOut := 0, 0, 0, 0, false
 		for _, o := range g.ops {
-			rec.cur = nil
-			apply(pr, u, o)
 			opsCoq = append(opsCoq, o.coq(u))
+		}
+		panicked := false
+		for _, o := range g.ops {
+			rec.cur = nil
 			tl := o.text(u)
+			if msg := safeApply(pr, u, o); msg != "" {
+				// the real code panicked: this Flush (and the rest) has no output, which no oracle accepts
+				panicked = true
+				trace = append(trace, tl+" PANIC: "+msg)
+				break
+			}
 			if o.kind == opFlush {
 				flushes++
 				sort.SliceStable(rec.cur, func(a, b int) bool { return rec.cur[a].ep < rec.cur[b].ep })
@@ -658,6 +706,9 @@ func main() {
 		}
 		coq := fmt.Sprintf("mk_case (mkVariant %s %s) %s %s %s", cb(fixed), cb(lexname), lst(opsCoq), lst(outsCoq), lst(splitsCoq))
 		tags := []string{stream}
+		if panicked {
+			tags = append(tags, "panic")
+		}
 		if g.startStopBetweenFlush {
 			tags = append(tags, "start+stop-between-flushes")
 		}
